@@ -89,6 +89,30 @@ int simevent_selftest() {
 				if (verbose || !ok) CHECK(ok, "(d) loopbreak woke the blocked loop without running the far timer");
 				event_free(e); event_base_free(b);
 			}
+			{ // (e)
+				struct event_base* b = event_base_new();
+				int n_ok = 0;
+				for (int i = 1; i <= 256; i++) {
+					tv.tv_sec = 0; tv.tv_usec = i * 1000;
+					if (event_base_init_common_timeout(b, &tv)) n_ok++;
+				}
+				tv.tv_sec = 0; tv.tv_usec = 5000;
+				const struct timeval* again = event_base_init_common_timeout(b, &tv);
+				tv.tv_sec = 0; tv.tv_usec = 300000;
+				const struct timeval* over = event_base_init_common_timeout(b, &tv);
+				bool ok = n_ok == 256 && again != NULL && over == NULL;
+				if (verbose || !ok) CHECK(ok, "(e) 256 distinct common timeouts per base, a known duration is found again, the 257th distinct one yields NULL");
+				g_order.clear();
+				struct event* never = event_new(b, -1, 0, cb_order, (void*)"N");
+				struct event* soon = event_new(b, -1, 0, cb_order, (void*)"S");
+				event_add(never, over);
+				event_add(soon, again);
+				usim::sleep_ms(40);
+				event_base_loop(b, EVLOOP_NONBLOCK);
+				ok = g_order == "S";
+				if (verbose || !ok) CHECK(ok, "(e) a timer added with a NULL timeout did not fire, the one added with a common-timeout handle did");
+				event_free(never); event_free(soon); event_base_free(b);
+			}
 			usim::end();
 			if (fails != before) printf("     (policy %s, seed %llu)\n", pol ? "random" : "nonpreempt", (unsigned long long)seed);
 		}
